@@ -76,25 +76,25 @@ Definition trans_vals (b : list (name * bound)) (ns : list name) (xs : list R) :
 Definition set_trans_var (s : st) (xs : list R) : st :=
   set_all s (train s) (trans_vals (bnd s) (train s) xs).
 
-(* vm.standard_complex(skip): r < 0 -> (|r|, phi + pi), unless the variable is constrained:
-   a component is in bnd_dic, is named in [skip] (the bounds handed to the fit: bnd_dic itself is already
-   empty when fit_scipy gets here), or is not trainable (fixed). *)
+(* vm.standard_complex(skip) (commit d65ebac): r < 0 -> (|r|, phi + pi), unless the variable is constrained:
+   a component is in bnd_dic, is named in [skip] (fit_scipy passes bounds_dict: bnd_dic itself is already
+   empty when it gets here), or is not trainable (fixed). *)
 Definition std_skip (s : st) (skip : list (name * bound)) (rp : name * name) : bool :=
   inb (bnd s) (fst rp) || inb (bnd s) (snd rp) || inb skip (fst rp) || inb skip (snd rp)
   || negb (mem (fst rp) (train s)) || negb (mem (snd rp) (train s)).
+(* written with the branch at the level of the VALUES (r >= 0: both components are assigned their own value,
+   i.e. nothing changes), so that the state stays a record and the correspondence goals stay small *)
 Definition std_one (skip : list (name * bound)) (s : st) (rp : name * name) : st :=
   if std_skip s skip rp then s
-  else if Rlt_dec (read s (fst rp)) 0
-       then write (write s (fst rp) (Rabs (read s (fst rp)))) (snd rp) (read s (snd rp) + PI)
-       else s.
+  else write (write s (fst rp) (if Rlt_dec (read s (fst rp)) 0 then Rabs (read s (fst rp)) else read s (fst rp)))
+             (snd rp) (if Rlt_dec (read s (fst rp)) 0 then read s (snd rp) + PI else read s (snd rp)).
 Definition standard_complex (skip : list (name * bound)) (s : st) : st := fold_left (std_one skip) (polar s) s.
 
 (* the standard_complex of the tree before the repair: only bnd_dic (already emptied) was consulted *)
 Definition std_one_old (s : st) (rp : name * name) : st :=
   if inb (bnd s) (fst rp) || inb (bnd s) (snd rp) then s
-  else if Rlt_dec (read s (fst rp)) 0
-       then write (write s (fst rp) (Rabs (read s (fst rp)))) (snd rp) (read s (snd rp) + PI)
-       else s.
+  else write (write s (fst rp) (if Rlt_dec (read s (fst rp)) 0 then Rabs (read s (fst rp)) else read s (fst rp)))
+             (snd rp) (if Rlt_dec (read s (fst rp)) 0 then read s (snd rp) + PI else read s (snd rp)).
 Definition standard_complex_old (s : st) : st := fold_left std_one_old (polar s) s.
 
 (* fcn.get_params() = vm.get_all_dic(): every variable;  minuit lists the trainable ones only *)
